@@ -3,6 +3,7 @@ package main
 import (
 	"encoding/xml"
 	"fmt"
+	"go/token"
 	"go/types"
 	"os"
 	"path/filepath"
@@ -20,7 +21,7 @@ func propC19() Property {
 		ID: "C19",
 		Explanation: "R1 (undefined references refused): in the dictionary builder, whenever every lookup of a referenced field/component name on a path missed, the path returns a non-nil error; no plain (non comma-ok) lookup result is dereferenced. " +
 			"R2 (vocabulary agreement): the element names and attributes used at each level of the nine shipped specs are exactly those bound by the XML* struct tags (an attribute the structs do not bind is silently dropped; a tag that occurs in no spec is a typo that drops data). " +
-			"R3 (required propagation guards): a component's/group's required fields are taken from a part only under that part's own Required(); a message's RequiredTags only under allowRequired ∧ field.Required(), where allowRequired is the enclosing component's Required(); part lists are appended in declaration order. R4: part-type exhaustiveness and the cycle guard (C09-K4, K5). R5 (errors surface): in the dictionary package no return hands back a nil error on a path whose condition establishes that an error result of a call was non-nil (a shadowed `err` after `break`, a forgotten assignment): the refusal R1 proves at the leaf must reach the caller of Parse. R6 (immutability): a store into a field of a FieldDef / ComponentType / MessageDef / FieldType targets an object allocated in the same function (or the dictionary under construction in the builder); definitions reached through a shared pointer are never adjusted. R7: the function that processes a field part of a message enters it into MessageDef.Fields on every path.",
+			"R3 (required propagation guards): a component's/group's required fields are taken from a part only under that part's own Required(); a message's RequiredTags only under allowRequired ∧ field.Required(), where allowRequired is the enclosing component's Required(); part lists are appended in declaration order. R4: part-type exhaustiveness and the cycle guard (C09-K4, K5). R5 (errors surface): in the dictionary package no return hands back a nil error on a path whose condition establishes that an error result of a call was non-nil (a shadowed `err` after `break`, a forgotten assignment): the refusal R1 proves at the leaf must reach the caller of Parse. R6 (immutability): a store into a field of a FieldDef / ComponentType / MessageDef / FieldType targets an object allocated in the same function (or the dictionary under construction in the builder); definitions reached through a shared pointer are never adjusted. R7: the function that processes a field part of a message enters it into MessageDef.Fields on every path. R5 also requires that the branch taken when an in-package call failed does not go round the enclosing loop again. R6 also covers slices: a definition under construction never adopts, or appends into, a slice handed out by another definition. R8: every *FieldDef the builder returns is constructed for that occurrence (constructor call chain ending in a fresh allocation), never looked up by name.",
 		NotDecided: "that the flattened field sets equal the specification's for every message (a semantic comparison over ~900 definitions), enumeration values.",
 		Rules: []RuleDef{
 			{ID: "C19-R1", Desc: "missed name lookups end in an error", Min: 3, Run: c19R1},
@@ -30,6 +31,7 @@ func propC19() Property {
 			{ID: "C19-R5", Desc: "a detected build error is returned, never replaced by nil", Min: 5, Run: c19R5},
 			{ID: "C19-R6", Desc: "shared definitions are never mutated after construction", Min: 5, Run: c19R6},
 			{ID: "C19-R7", Desc: "every field part is entered into the message's field table", Min: 1, Run: c19R7},
+			{ID: "C19-R8", Desc: "field/group definitions are constructed per occurrence, not taken from a by-name cache", Min: 2, Run: c19R8},
 		},
 	}
 }
@@ -453,9 +455,63 @@ func c19R5(c *Ctx) {
 			}
 		}
 	}
+	// and the branch taken when an in-package call failed ends the function: it may not go round a
+	// loop again (continue) and leave the failure behind
+	for _, fn := range p.FuncsIn(modPath + "/datadictionary") {
+		res := fn.Signature.Results()
+		if res.Len() == 0 || !isErrorType(res.At(res.Len()-1).Type()) {
+			continue
+		}
+		for _, b := range fn.Blocks {
+			iff, ok := b.Instrs[len(b.Instrs)-1].(*ssa.If)
+			if !ok {
+				continue
+			}
+			bo, ok := iff.Cond.(*ssa.BinOp)
+			if !ok || bo.Op != token.NEQ || !p.Origin(bo.Y).IsNil() || !isErrorType(bo.X.Type()) {
+				continue
+			}
+			eo := p.Origin(bo.X)
+			if eo.Kind != "call" || eo.Callee == nil || !p.InModule(eo.Callee) {
+				continue
+			}
+			n++
+			t := b.Succs[0]
+			// does the error branch reach a loop header that dominates it (i.e. continue)?
+			again := false
+			for _, l := range naturalLoops(fn) {
+				if l.body[b] && reachesWithin(t, l.header, l.body) {
+					again = true
+				}
+			}
+			c.Check(!again, FuncName(fn), p.InstrPos(iff), "error-branch-leaves", "the failure branch leaves the function", "after "+eo.String()+" failed the function carries on with the next loop iteration: the failure is dropped, the definition that could not be built is silently missing and the file is accepted")
+		}
+	}
 	if n == 0 {
 		c.Violation("", "-", "no-builder-returns", "no function of the dictionary package returns a nil error")
 	}
+}
+
+// reachesWithin: to is reachable from from by edges that stay inside body.
+func reachesWithin(from, to *ssa.BasicBlock, body map[*ssa.BasicBlock]bool) bool {
+	seen := map[*ssa.BasicBlock]bool{}
+	var w func(b *ssa.BasicBlock) bool
+	w = func(b *ssa.BasicBlock) bool {
+		if b == to {
+			return true
+		}
+		if seen[b] || !body[b] {
+			return false
+		}
+		seen[b] = true
+		for _, s := range b.Succs {
+			if w(s) {
+				return true
+			}
+		}
+		return false
+	}
+	return w(from)
 }
 
 // C19-R6: definitions are immutable once built. FieldDef / ComponentType / MessageDef / FieldType
@@ -514,13 +570,82 @@ func c19R6(c *Ctx) {
 				}
 			}
 			f := derefStruct(fa.X.Type()).Field(fa.Field)
+			if _, isSlice := st.Val.Type().Underlying().(*types.Slice); isSlice {
+				// a definition never adopts another definition's slice: later appends would write into it
+				vo := p.Origin(st.Val)
+				adopted := vo.Kind == "call" && (vo.Callee == nil && vo.Method != nil || vo.Callee != nil && p.InModule(vo.Callee) && !returnsFreshSlice(vo.Callee))
+				if vo.Kind == "phi" {
+					for _, a := range vo.Alts {
+						if a.Kind == "call" && (a.Callee == nil && a.Method != nil || a.Callee != nil && p.InModule(a.Callee) && !returnsFreshSlice(a.Callee)) {
+							adopted = true
+						}
+					}
+				}
+				c.Check(!adopted, FuncName(fn), p.InstrPos(st), "slice-adopted:"+tn+"."+cn(f), "slice fields hold slices built for this object", "field "+cn(f)+" of the "+tn+" under construction is set to "+vo.String()+", the slice another definition hands out: the two definitions now share one backing array, and members appended to this one are written into the other (two definitions starting from the same sub-component overwrite each other's members)")
+			}
 			c.Check(isAlloc || isRecvBuilder, FuncName(fn), p.InstrPos(st), "definition-mutated:"+tn+"."+cn(f), "stores only into a definition allocated in this function",
 				"field "+cn(f)+" of a "+tn+" that was not allocated in this function is overwritten ("+p.Origin(fa.X).String()+"): definitions are shared by pointer between all messages, components and groups that use them, so the change alters what the dictionary says everywhere else the definition is used")
+		})
+	}
+	// appends never grow a slice obtained from another definition: append(x.Fields(), …) writes into
+	// the backing array that the other definition (and everyone who copied its slice header) uses
+	for _, fn := range p.FuncsIn(modPath + "/datadictionary") {
+		ForEachInstr(fn, func(in ssa.Instruction) {
+			v, ok := in.(ssa.Value)
+			if !ok {
+				return
+			}
+			ai := asAppend(v)
+			if ai == nil {
+				return
+			}
+			et := typeName(sliceElem(v.Type()))
+			if et != "FieldDef" && et != "MessagePart" {
+				return
+			}
+			n++
+			bo := p.Origin(ai.Base)
+			shared := false
+			bo.Mentions(func(x *Org) bool {
+				if x.Kind == "call" && x.Callee != nil && p.InModule(x.Callee) && !returnsFreshSlice(x.Callee) {
+					shared = true
+				}
+				if x.Kind == "call" && x.Callee == nil && x.Method != nil {
+					shared = true // interface accessor (Fields(), RequiredFields()): hands out the definition's own slice
+				}
+				return false
+			})
+			c.Check(!shared, FuncName(fn), p.InstrPos(in), "append-into-shared-slice", "appends grow only slices owned by the object under construction", "append grows "+bo.String()+", a slice handed out by another definition: when that slice has spare capacity the new elements are written into the other definition's backing array, and two definitions that start from the same sub-component overwrite each other's members")
 		})
 	}
 	if n == 0 {
 		c.Violation("", "-", "no-definition-stores", "no store into a dictionary definition found")
 	}
+}
+
+// returnsFreshSlice: every return of fn is a slice made in fn (make / append onto nil / literal).
+func returnsFreshSlice(fn *ssa.Function) bool {
+	if fn == nil || fn.Blocks == nil {
+		return false
+	}
+	n := 0
+	for _, b := range fn.Blocks {
+		r, ok := b.Instrs[len(b.Instrs)-1].(*ssa.Return)
+		if !ok || len(r.Results) == 0 {
+			continue
+		}
+		n++
+		switch x := stripConv(r.Results[0]).(type) {
+		case *ssa.MakeSlice:
+		case *ssa.Slice:
+			if _, isAl := x.X.(*ssa.Alloc); !isAl {
+				return false
+			}
+		default:
+			return false
+		}
+	}
+	return n > 0
 }
 
 func c19R7(c *Ctx) {
@@ -559,6 +684,92 @@ func returnsFresh(fn *ssa.Function) bool {
 		n++
 		if _, isAlloc := stripConv(r.Results[0]).(*ssa.Alloc); !isAlloc {
 			return false
+		}
+	}
+	return n > 0
+}
+
+// C19-R8: a field or group definition returned by the builder is constructed for this occurrence:
+// the *FieldDef results of the builder functions originate from a constructor call in the same
+// function, never from a map lookup. (Components are global by name and are cached; groups are
+// defined inline per message and the same name has different members in different messages.)
+func c19R8(c *Ctx) {
+	p := c.P
+	n := 0
+	for _, fn := range p.FuncsIn(modPath + "/datadictionary") {
+		if fn.Signature.Recv() == nil || typeName(fn.Signature.Recv().Type()) != "builder" {
+			continue
+		}
+		res := fn.Signature.Results()
+		if res.Len() == 0 || typeName(res.At(0).Type()) != "FieldDef" {
+			continue
+		}
+		for _, b := range fn.Blocks {
+			r, ok := b.Instrs[len(b.Instrs)-1].(*ssa.Return)
+			if !ok {
+				continue
+			}
+			o := p.Origin(r.Results[0])
+			if o.IsNil() {
+				continue
+			}
+			n++
+			okV := o.All(func(x *Org) bool {
+				return x.IsNil() || x.Kind == "call" && x.Callee != nil && p.InModule(x.Callee) && p.returnsFreshDeep(x.Callee, x.Res, 0)
+			})
+			fromMap := o.Any(func(x *Org) bool { return x.Kind == "lookup" })
+			c.Check(okV && !fromMap, FuncName(fn), p.InstrPos(r), "definition-built-per-occurrence", "the definition is the result of a constructor call in this function", "a field/group definition is returned from "+o.String()+" rather than constructed for this occurrence: groups are defined inline per message and the same group name has different members in different messages, so a definition reused by name gives later messages the member list of the first one")
+		}
+	}
+	if n == 0 {
+		c.Violation("", "-", "no-fielddef-builder", "no builder function returns a *FieldDef")
+	}
+}
+
+// returnsFreshDeep: result #res of fn is, on every return, nil, an object allocated in fn, or the
+// result of an in-module function for which the same holds.
+func (p *Prog) returnsFreshDeep(fn *ssa.Function, res int, depth int) bool {
+	if fn == nil || fn.Blocks == nil || depth > 3 {
+		return false
+	}
+	n := 0
+	for _, b := range fn.Blocks {
+		r, ok := b.Instrs[len(b.Instrs)-1].(*ssa.Return)
+		if !ok || res >= len(r.Results) {
+			continue
+		}
+		n++
+		var vals []ssa.Value
+		if phi, ok := r.Results[res].(*ssa.Phi); ok {
+			vals = phi.Edges
+		} else {
+			vals = []ssa.Value{r.Results[res]}
+		}
+		for _, v := range vals {
+			v = stripConv(v)
+			switch x := v.(type) {
+			case *ssa.Alloc:
+			case *ssa.Const:
+				if !x.IsNil() {
+					return false
+				}
+			case *ssa.Call:
+				cal := x.Call.StaticCallee()
+				if cal == nil || !p.InModule(cal) || !p.returnsFreshDeep(cal, 0, depth+1) {
+					return false
+				}
+			case *ssa.Extract:
+				cl, ok := x.Tuple.(*ssa.Call)
+				if !ok {
+					return false
+				}
+				cal := cl.Call.StaticCallee()
+				if cal == nil || !p.InModule(cal) || !p.returnsFreshDeep(cal, x.Index, depth+1) {
+					return false
+				}
+			default:
+				return false
+			}
 		}
 	}
 	return n > 0
